@@ -39,18 +39,9 @@ def main():
         import random
         rnd = random.Random(ck.seed)
         keep = []
-        by = {}
-        for t in tpl:
-            by.setdefault(t[0], []).append(t)
         quota = {'single': 6, 'regex': 3, 'number': 3, 'scalar': 3, 'list': 8, 'list-all': 5, 'list-of': 8, 'list-mixed': 4,
                  'quant-short': 6, 'quant-ident': 8, 'cast-cond': 5}
-        for fam, ts in by.items():
-            n = quota.get(fam)
-            if n is None or n >= len(ts):
-                keep += ts
-            else:
-                keep += rnd.sample(ts, n)
-        tpl = keep
+        tpl = templates.thin(tpl, quota, rnd)
     ck.extra['templates'] = len(tpl)
     ck.run_units([(name, templates.render(rule)) for _, name, rule in tpl], run_unit)
     ck.finish('original vs optimised trees on real solver MIR, one symbolic document; z3 decides verdict inequality')
@@ -83,10 +74,10 @@ def run_unit(ck, unit):
                 else:
                     ck.violations.append((p, 'optimise(%s) panicked on %s: %s' % (opts, name, r['panic'])))
                 break
-            txt = json.dumps([r['expr'], r['idents']], sort_keys=True)
+            txt = json.dumps([r['expr'], r['idents'], r.get('engine_probe_mismatches')], sort_keys=True)
             if txt not in variants:
                 variants[txt] = (opts, r)
-    base_txt = json.dumps([base['expr'], base['idents']], sort_keys=True)
+    base_txt = json.dumps([base['expr'], base['idents'], base.get('engine_probe_mismatches')], sort_keys=True)
     variants.pop(base_txt, None)
     if not variants:
         return
@@ -96,8 +87,28 @@ def run_unit(ck, unit):
     o = tr.evaluate(base)
     ck.extra['programs'] = ck.extra.get('programs', 0) + 1 + len(variants)
     for txt, (opts, rj) in variants.items():
-        v = tr.evaluate(rj)
         label = '%s opts=%s' % (name, ''.join('csrm'[i] if opts[i] else '-' for i in range(4)))
+        # the compiled engines inside the optimised tree must be the ones their description says (the model is built from the description)
+        unconfirmed, confirmed = set(), 0
+        base_whats = {w for _, w in probe_docs(base)}
+        for docj, what in probe_docs(rj):
+            if what in base_whats:
+                continue        # the loader's engine already deviates: C02 / C07's business, not the optimiser's
+            ck.obligations += 1
+            # (through the real loader and optimiser: an exported tree rebuilt from its description would hide the deviation)
+            n0 = br.call(cmd='eval', yaml=yaml, opts=None, doc=docj, mode='flat')
+            n1 = br.call(cmd='eval', yaml=yaml, opts=opts, doc=docj, mode='flat')
+            path = ck.write_replay(safe(label) + '_engine', {'rule': yaml, 'opts': opts, 'doc': docj, 'what': what, 'native_original': n0,
+                                                             'native_optimised': n1, 'optimised_tree': rj['display']})
+            if n0.get('verdict') != n1.get('verdict'):
+                confirmed += 1
+                if confirmed == 1:
+                    ck.violations.append((path, '%s: %s; original=%s optimised=%s on %s' % (label, what, n0.get('verdict'), n1.get('verdict'), json.dumps(docj))))
+            else:
+                unconfirmed.add('%s: %s (the model of this tree is not valid)' % (label, what))
+        if unconfirmed and not confirmed:
+            ck.inconclusive.append(sorted(unconfirmed)[0])
+        v = tr.evaluate(rj)
         if v['res'] is None or o['res'] is None:
             ck.obligation(label + ':evaluates', tr.uni, True,
                           on_sat=lambda m: ('violation', ck.write_replay(safe(label), {'rule': yaml, 'opts': opts}), label + ': always panics'))
@@ -181,6 +192,14 @@ def classify(base, rj, opts):
     has_matrix = any_node(rj['expr'], is_matrix) or any(any_node(v, is_matrix) for _, v in rj['idents'])
     if has_matrix and under_negation(rj, is_matrix):
         return 'matrix:evaluation-order-under-negation'
+    # shake re-emits the nested blocks of an and-group after its other members; under a negation the
+    # changed evaluation order is observable (first non-true operand: false vs missing)
+    if opts[1]:
+        def and_with_nested(j):
+            return j.get('t') == 'BooleanGroup' and j.get('op') == 'And' and any(x.get('t') == 'Nested' for x in j['g']) \
+                and any(x.get('t') != 'Nested' for x in j['g'])
+        if under_negation(base, and_with_nested) or under_negation(rj, and_with_nested):
+            return 'shake:and-group-reordered-under-negation'
     # a counted identifier whose entries were merged by shake
     if opts[1] and not opts[0]:
         b_ids = {bytes(k): v for k, v in base['idents']}
